@@ -309,6 +309,46 @@ CHECKS["C04"] = dict(
           "termination of the outer nonlinear loop (no iteration cap in the C++), a global theorem for floating-conductor rows. "
           "Which variant of the scan bound / conductor-flow scaling the tree has is read from the source on every run."),
     technique="Coq proof over a hand-written assembly model + bit-exact model/implementation correspondence + independent Galerkin oracle")
+
+# model extensions merged after all properties had a check (DESIGN.md §9.8): sentences appended to the level texts
+EXTRA = {
+ "C02": (" Extension (Renumber.v, Properties_C02_renumber.v): the node / element renumbering every solver performs between LoadMesh and "
+         "assembly (FEASolver::Cuthill with its adjacency lists, bubble sort, start search, Cuthill-McKee loop incl. the restart for "
+         "disconnected meshes, SortNodes' in-place cycle loop, SortElements' comb sort) is modelled statement by statement with checked "
+         "accesses; proved for every edge list with indices in range and at least two nodes: newnum is a permutation, the renumbered mesh "
+         "is the isomorphic image (node records incl. markers and conductors travel with the node, element records with the element), "
+         "SortNodes' loop equals its specification, SortElements returns a permutation (that it sorts is refuted); model vs the real "
+         "Cuthill of FSolver / ESolver / HSolver on real fmesher meshes and hand-made graphs, exactly equal. Every periodic and every "
+         "second problem is also meshed inside a femmcli session with entities left selected: mesh files byte-identical."),
+ "C07": (" Extension (Properties_C07_renumber.v): the renumbering maps the pbc list entry by entry to the same physical nodes."),
+ "C08": (" Extension (Properties_C08_renumber.v, 8 theorems): in the renumbering model every array access is in range and every loop "
+         "ends (numbering within NumNodes turns, start search for every input — the former hang is repaired —, SortNodes, SortElements); "
+         "NumNodes = 1 reads out of range (refuted, hand-made files only). Sessions that post-process a large, a small and the large "
+         "solution again run on the sanitizer build."),
+ "C09": (" Extension (Properties_C09_bandwidth.v): the BandWidth the renumbering hands to the banded row scans bounds 1 + |i - j| of "
+         "every edge and every element side."),
+ "C05": (" Extension (AsmMAxi.v / AsmMHAxi.v, Properties_C05_axi.v, 12 theorems): the AXISYMMETRIC static and harmonic solvers "
+         "(modified potential, mid-side radii, on-axis nodes, lamination formulas, circuits, boundary conditions) are modelled "
+         "statement by statement; rows = sum of element contributions, element matrix symmetric and equal to the modified-potential form "
+         "the code implements, prescribed and on-axis rows; assembled matrix, right-hand side, solution and circuit lines bit-identical "
+         "with h_fsolver_axi; independent SI oracle of the axisymmetric weak form on the written .ans."),
+ "C06": (" Extension (Properties_C06_axi.v): for the axisymmetric magnetics model the uniform axial flux density A = B0 r / 2 makes the "
+         "interior rows vanish on every closed fan (any valence, any coordinates off the axis)."),
+ "C10": (" Extension (Properties_C10_axi.v): scaling law of the axisymmetric magnetics element (stiffness x s, current load x s^3, "
+         "magnet load x s^2, R_hat x s). Field averages, weighted-stress-tensor force and torque are paired in two units as well."),
+ "C11": (" Extension (Properties_C11_axi.v, 8 theorems): for the axisymmetric magnetics model the matrix is independent of the excitations "
+         "and the right-hand side linear in them through the whole static assembly; the harmonic model at omega = 0 equals the static "
+         "one element by element and, up to the SetValue / periodicity stage, system-wide (partial)."),
+ "C14": (" Extension (SolFile.v, gen/SolSchemas.v, Properties_C14_solution.v, 25 theorems): the [Solution] part of .ans / .res / .anh "
+         "files. A translator regenerates writer schemas (ESolver / HSolver WriteResults, WriteStatic2D, WriteHarmonic2D) and reader "
+         "schemas (fpproc's legacy reader in its four modes, the FemmReader-based readers, the solvers' previous-solution readers) on "
+         "every run; generic round-trip theorem with the unit scaling, a sound compatibility checker evaluated on the regenerated tables "
+         "for all writer / reader pairs (10 pairs compatible; the one remaining diagnosis is an unreachable writer branch, refuted), "
+         "coordinates come back in the declared unit; on generated problems the file is compared token by token with the solver's memory "
+         "and bit for bit with what the post-processor holds."),
+}
+for _k, _t in EXTRA.items():
+    CHECKS[_k]["text"] = CHECKS[_k]["text"] + _t
 PENDING = {}
 def main():
     props = [json.loads(l) for l in open(os.path.join(V, "properties.jsonl"))]
